@@ -749,6 +749,11 @@ def lifecycle(P, ops, table, n, faults=False):
             if kind == "shape":
                 op["dep"] = a.id
             P.emit(ops, op)
+        elif k == "resume":
+            # checkpoint resume: the model's own checkpoint is loaded back into it, training goes on
+            fid = h_save(P, ops, a, ser=r.choice(["pickle_bytes", "held", "safetensors", "pickle_file"]))
+            P.emit(ops, {"op": "load", "fid": fid, "new": a.id, "into": a.id, "target": "same", "assign": False, "weights_only": r.random() < 0.7, "init": 1})
+            h_train(P, ops, a)
         elif k == "trainable":
             P.emit(ops, {"op": "set_trainable", "dep": a.id, "weights": r.random() < 0.4, "biases": r.random() < 0.8})
             h_train(P, ops, a, lr_p=0.2)
@@ -870,7 +875,7 @@ def plan_c11(P):
     ops = []
     P.sw["qinput"] = False
     deps = prelude(P, ops, calib_p=0.85)
-    table = [("train", 8), ("wupdate", 3), ("forward", 2), ("freeze", 1), ("newdep", 0.7), ("calib", 1.2), ("saveload", 0.3), ("calib_train", 1.5), ("trainable", 1.0), ("bad_call", 0.8)]
+    table = [("train", 8), ("wupdate", 3), ("forward", 2), ("freeze", 1), ("newdep", 0.7), ("calib", 1.2), ("saveload", 0.3), ("calib_train", 1.5), ("trainable", 1.0), ("bad_call", 0.8), ("resume", 0.8)]
     lifecycle(P, ops, table, r.randint(3, 9), faults=False)
     return ops
 
